@@ -284,7 +284,7 @@ pub fn run(ctx: &RunCtx) -> i32 {
         RULE,
         &stats,
         json!({"regress_replayed": reg.replayed}),
-        &["on PhysicalFS offsets beyond i64::MAX and seeks on append handles are outside the domain (OS limits / O_APPEND)", "short reads are legal under Read: the model advances by the count actually returned", "write-seek targets are bounded by 1 MiB (memory, not logic)"],
+        &["on PhysicalFS offsets beyond i64::MAX and seeks on append handles are outside the domain (OS limits / O_APPEND)", "short reads are legal under Read: the model advances by the count actually returned", "write-seek targets are bounded by 20 MiB (memory, not logic); excursions to the ends of the offset range seek without writing there"],
         failure.is_some() as u32,
     );
     finish(ctx, &stats, &failure, &[("distinct_nontrivial", 500), ("read:embedded", 50), ("read:phys", 50), ("read:mem", 50), ("write:overlay_copy_up_append", 10)])
